@@ -580,6 +580,7 @@ def ad_rev_next(E, st, ptr, v, fid, item_ty=None):
             out.append(('ret', a, some(('ref', mut, ('mu', mid, nb)))))
         st.zone.add_le(bk, fr)
         if st.zone.sat:
+            st.log('cursor-end', mid)
             out.append(('ret', st, NONE))
         return out
     return E.iter_next(st, _field_ptr(E, st, ptr, 0), fid, item_ty)
@@ -710,6 +711,7 @@ def m_find(E, st, fid, t, args, dest_ty):
 def m_position(E, st, fid, t, args, dest_ty):
     it_ptr, ip = _with_iter(E, st, fid, args[0])
     cell = pin(st, fid, ('ref', True, E.closure_cell(st, args[1])))
+    cnt = pin(st, fid, I(0))
 
     def on_item(s, item):
         out = []
@@ -719,17 +721,20 @@ def m_position(E, st, fid, t, args, dest_ty):
                 continue
             yes, no = E.split_bool(s2, r, True)
             if yes is not None:
-                u = fresh('u')
-                yes.zone.touch(u)
-                out.append(('done', 'ret', yes, some(I(u))))
+                cur = E.load(yes, cnt)
+                yes.log('found', ('position', E.tag_of(item)))
+                out.append(('done', 'ret', yes, some(cur)))
             if no is not None:
+                cur = E.load(no, cnt)
+                E.store(no, cnt, I(slots.plus(no, cur[1], 1)))
                 out.append(('cont', no))
         return out
 
     def on_none(s):
+        s.log('exhausted', 'position')
         return [('ret', s, NONE)]
 
-    return _finish(consume(E, st, fid, it_ptr, on_item, on_none, ('position', fid)), [ip, cell])
+    return _finish(consume(E, st, fid, it_ptr, on_item, on_none, ('position', fid)), [ip, cell, cnt])
 
 
 def _any_all(is_any):
